@@ -19,6 +19,10 @@
         -> ambient_conditional_use_can_differ      a use of the generator that is conditional on ambient state (logging
                                                    level, environment, thread count) is never closed, and it is needed:
                                                    the same seed gives different draws under two ambient states
+        -> reused_options_equal_fresh              ONE TrainingOptions object serving any sequence of trainings: every
+                                                   training gets the generator a fresh, equal options object would give
+                                                   (generated: no method of TrainingOptions keeps state on the object);
+                                                   a memoising random_generator() does not
    * "trained models do not depend on the number of worker or backend threads or on the similarity
       block size"
         -> chunking_irrelevant                     for every chunk/block size the joined result of the three
@@ -33,7 +37,7 @@
 From Coq Require Import ZArith List Bool Lia Permutation.
 From Coq Require String.
 Import String.StringSyntax.
-From LK Require Import Model.C11_seeds Gen.C11_rng Proofs.C11_proofs Proofs.C11_main Proofs.C11_gen.
+From LK Require Import Model.C11_seeds Gen.C11_rng Proofs.C11_proofs Proofs.C11_main Proofs.C11_gen Proofs.C11_options.
 Import ListNotations.
 Local Open Scope string_scope.
 
@@ -90,6 +94,17 @@ Theorem ambient_conditional_use_can_differ :
   forall w s, stmt_closed (SCond w s) = false.
 Proof. exact ambient_conditional_can_differ. Qed.
 Print Assumptions ambient_conditional_use_can_differ.
+
+(* "training of every LensKit-native model through the training options' seed": the options object may be shared by
+   any number of trainings (parameter sweep, re-training); slot = whatever an earlier use left on the object *)
+Theorem reused_options_equal_fresh :
+  training_options_plan = FreshPerCall /\
+  (forall (S G M : Type) (mk : S -> G) (seed : S) (slot : option G) (ts : list (G -> M * G)),
+     train_all mk training_options_plan seed slot ts = train_fresh mk seed ts) /\
+  train_all demo_mk Memoised 42%Z None [demo_training; demo_training]
+  <> train_fresh demo_mk 42%Z [demo_training; demo_training].
+Proof. exact reused_options_equal_fresh_l. Qed.
+Print Assumptions reused_options_equal_fresh.
 
 Theorem derived_rankers_order_free :
   forall (Gn P A : Type) (derive : Z -> Gn) (spawn : nat -> Gn) (out : Gn -> P -> A)
